@@ -230,6 +230,11 @@ def run_prog(case, pid, at_limit_fn=None, on_step=None):
                                    'detail': 'op #%d %s at t=%r: got %s, model %s' % (idx, json.dumps(op)[:120], now, got, want)})
                 break
             model.reconcile(raw.rowids(), now, violations, pid, at_limit=before)
+            if at_limit_fn is not None:
+                for rid, size in raw.sizes().items():
+                    it = model.rows.get(rid)
+                    if it is not None:
+                        it.size = size
             if model.culled_expired:
                 probes['cull_expired'] = model.culled_expired
             if len(model.rows) > 100:
